@@ -7,7 +7,12 @@ BASE = ("Trusted: TLC/SANY, refmcap (independent codec written from the MCAP spe
         "file; larger inputs are seeded samples. Verdicts only from real-code executions rejected by the TLA+ property layer.")
 T_W = "TLA+ property layer (MCAPFormat.tla) + writer model (Writer/WriterMC.tla) model-checked by TLC; TLC trace validation of the real writer and readers (TraceWriter.tla, drift via TraceWriterImpl.tla); TLC -simulate behaviours replayed into the real writer"
 T_R = "TLA+ lexer model (Lexer/LexerMC.tla) model-checked by TLC against ReadProps.tla; exhaustive cut / fault / bit-flip enumeration on real files judged by TLC trace validation (TraceRead.tla)"
+T_I = "TLA+ iterator model (IndexedRead.tla) model-checked by TLC against IndexProps.tla over every small file x order x topic set x window; TLC trace validation of the real reader on the enumerated file space, random large files and writer-produced files (TraceIndexed.tla); model replay against recorded reads (IndexedReplay.tla, drift)"
 CHECKS = [
+ ("C02", "model_checking", T_I, "6 C02", "Index-based vs scan reads, Info, random access to every indexed attachment/metadata record and the metadata callback on files written by the real writer in random configurations, judged by TLC (IndexedAllowed: exact, fallback or error - never silently fewer); iterator model checked exhaustively."),
+ ("C03", "model_checking", T_I, "6 C03", "Every file of the enumerated scope (2 chunks x <=2 messages x 4 times x 2 channels; thorough adds 3-chunk scopes) and random large files read in log / reverse-log order twice; TLC judges exactly-once, sortedness, same-chunk ties, repeatability; the iterator model satisfies the same properties for every file of its scope (TLC exhaustive, incl. the key lemma YieldSafe and termination)."),
+ ("C04", "model_checking", T_I, "6 C04", "Topic sets x windows (bounds from message times, chunk bounds, 0, 2^64-1) x every API form x indexed/scan x 3 orders on the same file space; TLC recomputes the selection (SelectExact); iterator model checked exhaustively over all windows and topic sets of its scope."),
+ ("C20", "model_checking", T_I, "6 C20", "Slot bound (slots <= max overlap depth, 1 in file order) and buffer bound from the verif accessor after every NextInto on files of 10..1000 chunks with overlap depth 1..8; the model proves the bound for every file of its scope and predicts the exact slot count of the real iterator; attachments of 1 KiB..256 MiB streamed through writer and lexer with measured heap."),
  ("C01", "model_checking", T_W, "6 C01", "Every trace of the real writer + lexer + scan iterator on TLC-generated behaviours, seeded random workloads and the full 1024-flag matrix is validated by TLC against the property-layer content model; the writer model is model-checked exhaustively on small workloads."),
  ("C05", "model_checking", T_W, "6 C05", "Every record of every produced file is decoded by an independent decoder; every position/length/offset/time is recomputed in TLA+ (WellFormed, IndexExact) by TLC trace validation; the writer model is checked exhaustively against the same operators and predicts the byte layout of every real file (zero drift)."),
  ("C06", "model_checking", T_W, "6 C06", "The CRC ranges are named by the TLA+ spec; the harness hashes the logged ranges and TLC checks range equality and verdicts for every CRC field of every produced file; the writer model carries the CRC reset points and is checked exhaustively."),
@@ -26,7 +31,7 @@ claimed = {c["property_id"] for c in checks}
 NA_REASON = {}
 na = [{"property_id": "C%02d" % i, "reason": NA_REASON.get("C%02d" % i, "check not built yet at this commit (planned, DESIGN.md section 6); no claim is made")}
       for i in range(1, 21) if "C%02d" % i not in claimed]
-hooks_commits = []
+hooks_commits = ["c82d278"]
 m = {"version": 1, "setup_cmd": "./tools/setup.sh",
      "hooks": {"guard": "verif", "enable": "go build -tags verif (./check builds the harness with the tag against /repo's working tree)",
                "baseline_off_cmd": "/verif/tools/baseline_off.sh", "source_commits": hooks_commits, "add_only": True},
